@@ -369,10 +369,12 @@ pub fn run(p: &Params, rep: &mut Report) {
     }
     if p.shard == 7 {
         // operand and class counts beyond 2^10 (and, for one term, beyond 2^16)
-        for n in if p.thorough { vec![1100u32, 2100, 4200] } else { vec![1100u32] } {
+        for n in if p.thorough { vec![1100u32, 2100, 4200, 1300 + (p.seed as u32 * 37) % 1700] } else { vec![1100u32, 1030 + (p.seed as u32 * 37) % 900] } {
             super::ladder::wide_union(rep, "C01", n, p.seed);
         }
         super::ladder::wide_tree(rep, "C01", 65_600, p.seed);
+        // many operands and long words at once
+        super::ladder::wide_long_words(rep, 300 + (p.seed as u32 * 13) % 200, if p.thorough { 4096 } else { 1000 }, p.seed);
     }
     if p.shard == 6 {
         super::scale::c01(rep, p.seed);
